@@ -13,9 +13,10 @@ Driver for C02.  One request per line:
 TOKS = `TYPE:hex,TYPE:hex,…` (`-` = no tokens); the position of a token is its index.  In the JSON a token is
 its position when it comes from the request (`struct`), else `[TYPE,hex]`.
 The oracle of `struct` accepts every selector / value / media query (the inputs of this correspondence are
-well-formed sheets; a part the real sub-parser rejects shows up as a rule or declaration missing in the DOM).
+well-formed sheets; a part the real sub-parser rejects shows up as a rule or declaration missing in the DOM);
+its at-rule part is `Model/AtRules.lean` (`withAtRules`).
 -/
-open CssVerif.Proto CssVerif.Struct CssVerif.SheetSpec
+open CssVerif.Proto CssVerif.Struct CssVerif.SheetSpec CssVerif.AtRules
 
 def ttOfName (s : String) : Option TT :=
   match s with
@@ -82,14 +83,37 @@ def jAItem (bp : Bool) : AItem → String
   | .comment b => "{\"k\":\"comment\",\"body\":" ++ q (encCps b) ++ "}"
   | .unknown l => "{\"k\":\"unknown\",\"toks\":" ++ jToks bp l ++ "}"
 
+def jItems (bp : Bool) (l : List AItem) : String := jList (l.map (jAItem bp))
+
+def jOptToks (bp : Bool) : Option (List Tok) → String
+  | none => "null"
+  | some l => jToks bp l
+
+mutual
 def jARule (bp : Bool) : ARule → String
   | .comment b => "{\"k\":\"comment\",\"body\":" ++ q (encCps b) ++ "}"
   | .style sels items => "{\"k\":\"style\",\"sels\":" ++ jList (sels.map (jToks bp)) ++ ",\"items\":"
-      ++ jList (items.map (jAItem bp)) ++ "}"
+      ++ jItems bp items ++ "}"
   | .unknown l => "{\"k\":\"unknown\",\"toks\":" ++ jToks bp l ++ "}"
+  | .media mq name rules => "{\"k\":\"media\",\"mq\":" ++ jToks bp mq ++ ",\"name\":" ++ jOptCps name
+      ++ ",\"rules\":[" ++ jARules bp rules ++ "]}"
+  | .fontface items => "{\"k\":\"fontface\",\"items\":" ++ jItems bp items ++ "}"
+  | .page name pseudo items margins => "{\"k\":\"page\",\"name\":" ++ jOptCps name ++ ",\"pseudo\":"
+      ++ jOptCps pseudo ++ ",\"items\":" ++ jItems bp items ++ ",\"margins\":"
+      ++ jList (margins.map fun m => "{\"name\":" ++ q (encCps m.name) ++ ",\"items\":" ++ jItems bp m.items ++ "}")
+      ++ "}"
+  | .import_ href mq name => "{\"k\":\"import\",\"href\":" ++ q (encCps href) ++ ",\"mq\":" ++ jOptToks bp mq
+      ++ ",\"name\":" ++ jOptCps name ++ "}"
+  | .namespace_ p u => "{\"k\":\"namespace\",\"pfx\":" ++ q (encCps p) ++ ",\"uri\":" ++ q (encCps u) ++ "}"
+  | .charset e => "{\"k\":\"charset\",\"enc\":" ++ q (encCps e) ++ "}"
   | .other k => "{\"k\":\"other\",\"kind\":" ++ q (kindName k) ++ "}"
+def jARules (bp : Bool) : List ARule → String
+  | [] => ""
+  | [r] => jARule bp r
+  | r :: rs => jARule bp r ++ "," ++ jARules bp rs
+end
 
-def jASheet (bp : Bool) (a : ASheet) : String := jList (a.map (jARule bp))
+def jASheet (bp : Bool) (a : ASheet) : String := "[" ++ jARules bp a ++ "]"
 
 /-! ### s-expressions (the wire form of a spelled sheet) -/
 
@@ -215,6 +239,56 @@ def sxSel : SX → Option SSel
     | _, _, _ => none
   | _ => none
 
+def sxQuote : SX → Option Quote
+  | .atom "dq" => some .dq
+  | .atom "sq" => some .sq
+  | _ => none
+
+def sxWsChars : SX → Option (List WsChar)
+  | .list l => mapM? (fun x => match x with | SX.atom s => wsChar? s | _ => none) l
+  | _ => none
+
+def sxHref : SX → Option SHref
+  | .list [.atom "str", qq, h] => match sxQuote qq, sxCps h with
+    | some qq, some h => some (.str qq h)
+    | _, _ => none
+  | .list [.atom "url", .atom up, pre, post, qq, h] =>
+    match up.toList, sxWsChars pre, sxWsChars post, sxCps h with
+    | [a, b, c], some pre, some post, some h =>
+      (match qq with
+        | .atom "none" => some (.url (a == '1', b == '1', c == '1') pre post none h)
+        | qq => (sxQuote qq).map fun qq => .url (a == '1', b == '1', c == '1') pre post (some qq) h)
+    | _, _, _, _ => none
+  | _ => none
+
+def sxOptCps : SX → Option (Option Cps)
+  | .atom "none" => some none
+  | x => (sxCps x).map some
+
+def sxPageItem : SX → Option (SPageItem × WGap)
+  | .list [.atom "margin", n, kw, g, blk, w] =>
+    match sxCps n, sxMask kw, sxGap g, sxBlock blk, sxWGap w with
+    | some n, some kw, some g, some blk, some w => some (.margin n kw g blk, w)
+    | _, _, _, _, _ => none
+  | x => (sxItem x).map fun p => (.item p.1, p.2)
+
+def sxPageBlock : SX → Option SPageBlock
+  | .list [lead, .list items, last] =>
+    match sxWGap lead, mapM? sxPageItem items, (match last with
+      | .atom "none" => some none
+      | d => (sxDecl d).map some) with
+    | some lead, some items, some last => some ⟨lead, items, last⟩
+    | _, _, _ => none
+  | _ => none
+
+def sxPageSel : SX → Option SPageSel
+  | .list [n, .list mid, p] =>
+    match sxOptCps n, mapM? sxCps mid, sxOptCps p with
+    | some n, some mid, some p => some ⟨n, mid, p⟩
+    | _, _, _ => none
+  | _ => none
+
+mutual
 def sxRule : SX → Option (SRule × WGap)
   | .list [.atom "comment", b, w] => match sxCps b, sxWGap w with
     | some b, some w => some (.comment b, w)
@@ -225,13 +299,76 @@ def sxRule : SX → Option (SRule × WGap)
   | .list [.atom "unknown", t, w] => match sxToks t, sxWGap w with
     | some t, some w => some (.unknown t, w)
     | _, _ => none
+  | .list [.atom "media", kw, g1, mq, g2, lead, .list rules, w] =>
+    match sxMask kw, sxGap g1, sxToks mq, sxGap g2, sxWGap lead, sxRules rules, sxWGap w with
+    | some kw, some g1, some mq, some g2, some lead, some rules, some w => some (.media kw g1 mq g2 lead rules, w)
+    | _, _, _, _, _, _, _ => none
+  | .list [.atom "fontface", kw, g1, blk, w] =>
+    match sxMask kw, sxGap g1, sxBlock blk, sxWGap w with
+    | some kw, some g1, some blk, some w => some (.fontface kw g1 blk, w)
+    | _, _, _, _ => none
+  | .list [.atom "page", kw, g0, sel, g1, blk, w] =>
+    match sxMask kw, sxGap g0, sxPageSel sel, sxGap g1, sxPageBlock blk, sxWGap w with
+    | some kw, some g0, some sel, some g1, some blk, some w => some (.page kw g0 sel g1 blk, w)
+    | _, _, _, _, _, _ => none
+  | _ => none
+def sxRules : List SX → Option SRules
+  | [] => some .nil
+  | x :: xs => match sxRule x, sxRules xs with
+    | some (r, w), some rest => some (.cons r w rest)
+    | _, _ => none
+end
+
+def sxImp : SX → Option (SImp × WGap)
+  | .list [.atom "comment", b, w] => match sxCps b, sxWGap w with
+    | some b, some w => some (.comment b, w)
+    | _, _ => none
+  | .list [.atom "unknown", t, w] => match sxToks t, sxWGap w with
+    | some t, some w => some (.unknown t, w)
+    | _, _ => none
+  | .list [.atom "import", kw, g1, href, g2, mq, w] =>
+    match sxMask kw, sxGap g1, sxHref href, sxGap g2, (match mq with
+      | .atom "none" => some none
+      | .list [m, g3] => (match sxToks m, sxGap g3 with
+        | some m, some g3 => some (some (m, g3))
+        | _, _ => none)
+      | _ => none), sxWGap w with
+    | some kw, some g1, some href, some g2, some mq, some w => some (.import_ kw g1 href g2 mq, w)
+    | _, _, _, _, _, _ => none
+  | _ => none
+
+def sxNs : SX → Option (SNs × WGap)
+  | .list [.atom "comment", b, w] => match sxCps b, sxWGap w with
+    | some b, some w => some (.comment b, w)
+    | _, _ => none
+  | .list [.atom "unknown", t, w] => match sxToks t, sxWGap w with
+    | some t, some w => some (.unknown t, w)
+    | _, _ => none
+  | .list [.atom "namespace", kw, g1, pfx, uri, g2, w] =>
+    match sxMask kw, sxGap g1, (match pfx with
+      | .atom "none" => some none
+      | .list [p, g] => (match sxCps p, sxGap g with
+        | some p, some g => some (some (p, g))
+        | _, _ => none)
+      | _ => none), sxHref uri, sxGap g2, sxWGap w with
+    | some kw, some g1, some pfx, some uri, some g2, some w => some (.namespace_ kw g1 pfx uri g2, w)
+    | _, _, _, _, _, _ => none
   | _ => none
 
 def sxSheet : List SX → Option SSheet
-  | [lead, .list rules] => match sxWGap lead, mapM? sxRule rules with
-    | some lead, some rules => some ⟨lead, rules⟩
-    | _, _ => none
+  | [cs, lead, .list imps, .list nss, .list rules] =>
+    match (match cs with
+      | .atom "none" => some none
+      | .list [qq, e] => (match sxQuote qq, sxCps e with
+        | some qq, some e => some (some (qq, e))
+        | _, _ => none)
+      | _ => none), sxWGap lead, mapM? sxImp imps, mapM? sxNs nss, sxRules rules with
+    | some cs, some lead, some imps, some nss, some rules => some ⟨cs, lead, imps, nss, rules⟩
+    | _, _, _, _, _ => none
   | _ => none
+
+/-- the oracle of the correspondence: selectors / values / media queries accepted, at-rules by their models -/
+def orc : Oracle := CssVerif.AtRules.withAtRules yes
 
 def handle (line : String) : String :=
   match words line with
@@ -242,7 +379,7 @@ def handle (line : String) : String :=
     match decToks ts with
     | some ts =>
       if !tokWF ts then "out-of-domain"
-      else jASheet true (projSheet (parseSheet yes CssVerif.Gen.C04.margins ts))
+      else jASheet true (projSheet orc CssVerif.Gen.C04.margins (parseSheet orc CssVerif.Gen.C04.margins ts))
     | none => "bad-op"
   | "spelled" :: ws =>
     match (parseSX ws).bind sxSheet with
